@@ -16,7 +16,7 @@ pub const FLOORS: &[&str] = &[
     "reset_after_eval_store", "reset_after_program_store", "reset_twice", "reset_then_full_run",
     "store_into_code", "store_into_stack_area", "memory_dirty_before_reset", "output:minimal", "output:decorated",
     "assembly_after_store_into_code", "resumed_under_debugger_after_reset", "reset_while_paused_on_breakpoint",
-    "resume_after_reset_compared_with_fresh_session", "reset_after_unfinished_step_over_call", "halt_planted_before_reset", "reset_after_eval_jump", "reset_while_parked_on_a_halt_planted_at_the_origin", "planted_halt_at_the_origin_reached_by_running",
+    "resume_after_reset_compared_with_fresh_session", "reset_after_unfinished_step_over_call", "halt_planted_before_reset", "reset_after_eval_jump", "reset_while_parked_on_a_halt_planted_at_the_origin", "planted_halt_at_the_origin_reached_by_running", "words_exchanged_before_reset",
 ];
 
 const FUEL: u64 = 15_000;
@@ -235,6 +235,30 @@ fn one_case(seed: u64, i: u64) -> CaseOut {
                     lines.push(format!("move x{:04x} x{:04x}", a, w));
                 }
                 tags.push("reset_after_move_mem");
+            }
+            5 if n_words >= 2 && rng.bool() => {
+                // two words of the program exchanged (or one raised and another lowered by the same amount): every
+                // sum over the words around them is what it was, the memory is not
+                let ia = rng.below(n_words) as usize;
+                let mut ib = rng.below(n_words) as usize;
+                if ib == ia {
+                    ib = (ia + 1) % n_words as usize;
+                }
+                let (wa, wb) = (img.words[ia], img.words[ib]);
+                let (a, b) = (orig.wrapping_add(ia as u16), orig.wrapping_add(ib as u16));
+                if a < 0xFE00 && b < 0xFE00 {
+                    if wa != wb && rng.bool() {
+                        lines.push(format!("move x{:04x} x{:04x}", a, wb));
+                        lines.push(format!("move x{:04x} x{:04x}", b, wa));
+                    } else {
+                        let k = 1 + rng.below(200) as u16;
+                        lines.push(format!("move x{:04x} x{:04x}", a, wa.wrapping_add(k)));
+                        lines.push(format!("move x{:04x} x{:04x}", b, wb.wrapping_sub(k)));
+                    }
+                    tags.push("words_exchanged_before_reset");
+                    tags.push("reset_after_move_mem");
+                    tags.push("store_into_code");
+                }
             }
             5 => {
                 lines.push(format!("goto x{:04x}", in_prog(&mut rng)));
